@@ -32,16 +32,20 @@ def failed_set(tree):
 def main():
     ap = argparse.ArgumentParser()
     ap.add_argument('src'); ap.add_argument('pid'); ap.add_argument('name')
-    ap.add_argument('--checks', default=None); ap.add_argument('--tier', default='quick'); ap.add_argument('--skip-pytest', action='store_true'); ap.add_argument('--skip-baseline', action='store_true')
+    ap.add_argument('--checks', default=None); ap.add_argument('--tier', default='quick'); ap.add_argument('--skip-pytest', action='store_true'); ap.add_argument('--skip-baseline', action='store_true'); ap.add_argument('--base', default=None, help='commit of /repo the change was written against (default: HEAD, or base_commit recorded in the meta.json of an earlier run)')
     a = ap.parse_args()
     checks = a.checks.split(',') if a.checks else [a.pid]
     scratch = tempfile.mkdtemp(prefix='seed.', dir='/dev/shm')
-    meta = {'property': a.pid, 'name': a.name, 'confirmed_at': time.strftime('%Y-%m-%d %H:%M:%S'), 'repo_head': run(['git', '-C', '/repo', 'rev-parse', '--short', 'HEAD'])[1].strip()}
+    old_meta_path = os.path.join(HERE, 'seeded', a.name, 'meta.json')
+    if a.base is None and os.path.exists(old_meta_path):
+        a.base = json.load(open(old_meta_path)).get('base_commit')
+    base = a.base or 'HEAD'
+    meta = {'property': a.pid, 'name': a.name, **({'base_commit': a.base, 'base_note': 'the change only exists against this earlier commit of /repo: a later fix: commit rewrote the lines it touches and made it harmless'} if a.base else {}), 'confirmed_at': time.strftime('%Y-%m-%d %H:%M:%S'), 'repo_head': run(['git', '-C', '/repo', 'rev-parse', '--short', 'HEAD'])[1].strip()}
     try:
         clean, patched = scratch + '/clean', scratch + '/patched'
         for t in (clean, patched):
             os.makedirs(t)
-            run(['git', '-C', '/repo', 'archive', 'HEAD', '--format=tar', '-o', t + '.tar'])
+            run(['git', '-C', '/repo', 'archive', base, '--format=tar', '-o', t + '.tar'])
             run(['tar', '-xf', t + '.tar', '-C', t]); os.remove(t + '.tar')
         rc, out = run(['git', 'apply', '--whitespace=nowarn', os.path.abspath(a.src + '/patch.diff')], cwd=patched)
         meta['patch_applies'] = rc == 0
